@@ -8,7 +8,9 @@ use margined_common::asset::AssetInfo;
 use crate::{
     contract::OWNER,
     messages::execute_vamm_shutdown,
-    querier::{query_engine_decimals, query_vamm_decimals, query_vamm_open},
+    querier::{
+        query_engine_decimals, query_vamm_accepts_set_open, query_vamm_decimals, query_vamm_open,
+    },
     state::{read_config, read_vammlist, remove_vamm as remove_amm, save_vamm, Config, VAMM_LIMIT},
 };
 
@@ -76,9 +78,17 @@ pub fn shutdown_all_vamm(deps: DepsMut, env: Env, info: MessageInfo) -> StdResul
     // construct all the shutdown messages
     let keys = read_vammlist(deps.as_ref(), VAMM_LIMIT)?;
 
-    // a vAMM rejects a SetOpen that does not change its state, so only address the open ones
+    // a vAMM rejects a SetOpen that does not change its state, so only address the open ones; a
+    // vAMM that no longer takes orders from this fund (its owner re-pointed it) would reject the
+    // message and with it the whole shutdown, so it is left out as well
     for vamm in keys.iter() {
-        if query_vamm_open(&deps.as_ref(), vamm.to_string())? {
+        if query_vamm_open(&deps.as_ref(), vamm.to_string())?
+            && query_vamm_accepts_set_open(
+                &deps.as_ref(),
+                vamm.to_string(),
+                env.contract.address.to_string(),
+            )?
+        {
             msgs.push(execute_vamm_shutdown(vamm.clone())?);
         }
     }
